@@ -95,7 +95,8 @@ def plan_sig(pl):
     return "fault=%s errvalue=%s shape=%s pools=%d cancel=%s" % ("/".join(p["fault"] for p in pl["pools"]),
                                                                  "/".join(p.get("ek", "plain") for p in pl["pools"]),
                                                      "/".join(p["shape"] for p in pl["pools"]),
-                                                     len(pl["pools"]), str(pl["cancel"]).lower())
+                                                     len(pl["pools"]), str(pl["cancel"]).lower()) + (
+        " poolids=%s" % pl["dupid"] if pl.get("dupid", "none") != "none" else "")
 
 
 def compact(ev):
